@@ -421,8 +421,36 @@ def rule_L1d_transition(ctx, rid='L1d'):
              'lockstep with the shell records)')
     run_f = ctx.program.func('Sampler.run')
     tr = SamplerTracker(run_f, G_SHELL.members + ['shell_n_sample_exp', 'shell_end_exp'])
-    rule_derived(ctx, rid, run_f, 'shell_n_sample', 'shell_n_sample_exp', tr)
-    rule_derived(ctx, rid, run_f, 'points', 'shell_end_exp', tr)
+    destructive = {'DELETE', 'SELECT', 'SLICE', 'REORDER', 'XFORM', 'REPLACE', 'INSERT'}
+    extra = {m: helper_event_calls(ctx.program, run_f, {m}, ops=destructive)
+             for m in ('shell_n_sample', 'points')}
+    rule_derived(ctx, rid, run_f, 'shell_n_sample', 'shell_n_sample_exp', tr,
+                 {nid for nid, _ in extra['shell_n_sample']})
+    rule_derived(ctx, rid, run_f, 'points', 'shell_end_exp', tr,
+                 {nid for nid, _ in extra['points']})
+
+
+def helper_event_calls(prog, func, members, ops=None):
+    """Calls in `func` to private helpers (methods only `func`'s permission set calls) that
+    perform list-level structural updates of `members`.  -> [(call node id, Event)]"""
+    from .resolve import helper_closure
+    cfg = cfg_of(func)
+    closure, _ = helper_closure(prog, func.cls, {func.qualname})
+    out = []
+    for c in walk_no_nested(func.node):
+        if isinstance(c, ast.Call) and isinstance(c.func, ast.Attribute) and \
+                isinstance(c.func.value, ast.Name) and c.func.value.id == func.self_name and \
+                cfg.has(c):
+            h = func.cls.methods.get(c.func.attr)
+            if h is None or h.qualname not in closure or h is func:
+                continue
+            trh = SamplerTracker(h, list(members))
+            for es in trh.all_events().values():
+                for e in es:
+                    if e.member in members and e.level == 'list' and (
+                            e.op in (ops or STRUCTURAL)):
+                        out.append((cfg.node_of(c).id, e))
+    return out
 
 
 # ---------------------------------------------------------------------------
